@@ -176,6 +176,32 @@ example : combineBcs [([5, 2, 7], [50, 20, 70]), ([2, 9, 5], [(21 : Int), 90, 51
     .ok ([2, 5, 7, 9], [20, 50, 70, 90]) := rfl
 example : combineBcs [([5, 2], [(50 : Int)])] = .error .assertion := rfl
 
+/-! ## several conditions at once -/
+
+/-- ★ `compute_dirichlet_bcs` (several faces, incl. the `'all'` shorthand): every dof occurs
+exactly once in the result (indices strictly increasing) with one value. -/
+theorem dirichlet_bcs_once {β : Type} (N : List Nat)
+    (conds : List (BdSpec × Option Nat × List (Option β))) (ui : List Nat) (uv : List (Option β))
+    (h : dirichletBcs N conds = .ok (ui, uv)) : ui.Pairwise (· < ·) ∧ uv.length = ui.length := by
+  unfold dirichletBcs at h
+  cases hm : conds.mapM (fun (x : BdSpec × Option Nat × List (Option β)) => dirichletBc N x.1 x.2.1 x.2.2) with
+  | error e => simp [hm, bind, Except.bind] at h
+  | ok bcs =>
+    simp only [hm, bind, Except.bind] at h
+    exact ⟨(combine_bcs_spec bcs ui uv h).1, (combine_bcs_spec bcs ui uv h).2.2⟩
+
+/-- ★ `Multipatch.compute_dirichlet_bcs` (glued numbering): every global dof occurs exactly once. -/
+theorem multipatch_bcs_once {β : Type} (Ns p2g : List (List Nat))
+    (conds : List (Nat × BdSpec × Option Nat × List (Option β))) (ui : List Nat) (uv : List (Option β))
+    (h : mpDirichletBcs Ns p2g conds = .ok (ui, uv)) : ui.Pairwise (· < ·) ∧ uv.length = ui.length := by
+  unfold mpDirichletBcs at h
+  generalize hm : List.mapM (m := Except Err) _ conds = r at h
+  cases r with
+  | error e => simp [bind, Except.bind] at h
+  | ok bcs =>
+    simp only [bind, Except.bind] at h
+    exact ⟨(combine_bcs_spec bcs ui uv h).1, (combine_bcs_spec bcs ui uv h).2.2⟩
+
 /-! ## boundary dofs: faces of the tensor-product index set -/
 
 section faces
